@@ -13,7 +13,29 @@ def un (f : Int → Option Int) (a : String) : String :=
   | some x => showOpt (f x)
   | _ => "bad-op"
 
+def cmpLine (a b : String) : String :=
+  match a.toInt?, b.toInt? with
+  | some x, some y =>
+    let f (c : Bool) : String := if c then "1" else "0"
+    s!"ok gt={f (decide (x > y))} gte={f (decide (x ≥ y))} lt={f (decide (x < y))} lte={f (decide (x ≤ y))} eq={f (decide (x = y))}"
+  | _, _ => "bad-op"
+
 def stepArith : List String → String
+  -- the variants with a machine-integer operand are the same function of that integer
+  | ["int.addraw", a, b] => bin intAdd a b
+  | ["int.subraw", a, b] => bin intSub a b
+  | ["int.mulraw", a, b] => bin intMul a b
+  | ["int.quoraw", a, b] => bin intQuo a b
+  | ["int.modraw", a, b] => bin intMod a b
+  | ["uint.adduint64", a, b] => bin uintAdd a b
+  | ["uint.subuint64", a, b] => bin uintSub a b
+  | ["uint.muluint64", a, b] => bin uintMul a b
+  | ["uint.quouint64", a, b] => bin uintQuo a b
+  | ["dec.mulint64", a, b] => bin decMulInt a b
+  | ["dec.quoint64", a, b] => bin decQuoInt a b
+  | ["int.cmp", a, b] => cmpLine a b
+  | ["uint.cmp", a, b] => cmpLine a b
+  | ["dec.cmp", a, b] => cmpLine a b
   | ["int.add", a, b] => bin intAdd a b
   | ["int.sub", a, b] => bin intSub a b
   | ["int.mul", a, b] => bin intMul a b
